@@ -320,7 +320,15 @@ static Result judge_C10(int e, uint64_t v) {
   return r;
 }
 
-static Result run_case(const std::string& prop, const Case& c) {
+static Result run_case(const std::string& prop, const Case& c0) {
+  Case mapped;
+  if (c0.campaign == "FUZZ" && prop == "C09") {   // fuzz input: up to 24 leading bytes are the cut bitmap, the rest is the stream
+    size_t nb = c0.data.size() < 48 ? c0.data.size() / 2 : 24; if (nb > 24) nb = 24;
+    mapped.campaign = "FRAG"; mapped.aux[0] = 3;
+    for (size_t i = 0; i < nb; i++) mapped.aux[1 + i / 8] |= (uint64_t)c0.data[i] << (8 * (i % 8));
+    mapped.data.assign(c0.data.begin() + (long)nb, c0.data.end()); if (mapped.data.size() > 190) mapped.data.resize(190);
+  }
+  const Case& c = mapped.campaign.empty() ? c0 : mapped;
   if (prop == "C08") return judge_C08(c.data.data(), c.data.size());
   if (prop == "C09") return judge_C09(c);
   if (prop == "C10") return judge_C10((int)c.aux[0], c.aux[1]);
@@ -461,8 +469,12 @@ static void run_campaigns(Ctx& ctx) {
   else if (ctx.prop == "C10") camp_ENC(ctx);
 }
 
+static void driver_init() { cbor_set_allocs(va::vmalloc, va::vrealloc, va::vfree); }
+static const char* kDriverName = "drv_stream";
+#ifndef VH_FUZZ_TARGET
 int main(int argc, char** argv) {
-  cbor_set_allocs(va::vmalloc, va::vrealloc, va::vfree);
-  vh::Driver drv{"drv_stream", run_campaigns, run_case};
+  driver_init();
+  vh::Driver drv{kDriverName, run_campaigns, run_case};
   return vh::driver_main(argc, argv, drv);
 }
+#endif
